@@ -1781,3 +1781,45 @@ package resolve
 //@   ensures {no.variables.no.value} v.variables == nil || len(path) == 0 ==> result == nil
 //@   modifies *
 //@   safety no-bounds
+
+// ----------------------------------------------------------------------------------------------
+// C16, the key separates what is asked: a variable the client left out is rendered as null and removed from the
+// request afterwards (SetInputUndefinedVariables), so the rendered header and footer alone do not tell {} from
+// {"c":null}. The names removed from the request are part of the selection hash: exactly the list handed to
+// SetInputUndefinedVariables is the list that was hashed.
+//@ func responseCacheSelectionHash
+//@   ghost var g_names int = 0
+//@   at call Digest.WriteString: assert {each.name.left.out.is.hashed} 0 <= g_names && g_names < len(undefinedVariables) && arg1 == undefinedVariables[g_names]
+//@   at call Digest.WriteString: ghost g_names = g_names + 1
+//@   ensures {every.name.left.out.is.hashed} g_names == len(undefinedVariables)
+//@   modifies global(ext)
+//@   loop 0:
+//@     invariant g_names == loopphi(0, 0) + 1 || (len(undefinedVariables) == 0 && g_names == 0)
+
+//@ func SetInputUndefinedVariables
+//@   modifies *
+//@   trusted writes the "undefined" member into the rendered input (httpclient convention); external to the key
+
+//@ func Loader.prepareEntityFetch
+//@   requires l != nil && l.ctx != nil && fetch != nil && prepared != nil && res != nil
+//@   ghost var g_keyed bool = false
+//@   ghost var g_keyArr int = 0
+//@   ghost var g_keyLen int = 0
+//@   at call responseCacheSelectionHash: ghost g_keyed = true
+//@   at call responseCacheSelectionHash: ghost g_keyArr = arr(arg2)
+//@   at call responseCacheSelectionHash: ghost g_keyLen = len(arg2)
+//@   at call SetInputUndefinedVariables: assert {the.key.covers.the.variables.removed.from.the.request} g_keyed ==> (arr(arg1) == g_keyArr && len(arg1) == g_keyLen)
+//@   modifies *, count(*)
+//@   safety none
+
+//@ func Loader.prepareBatchEntityFetch
+//@   requires l != nil && l.ctx != nil && fetch != nil && prepared != nil && res != nil
+//@   ghost var g_keyed bool = false
+//@   ghost var g_keyArr int = 0
+//@   ghost var g_keyLen int = 0
+//@   at call responseCacheSelectionHash: ghost g_keyed = true
+//@   at call responseCacheSelectionHash: ghost g_keyArr = arr(arg2)
+//@   at call responseCacheSelectionHash: ghost g_keyLen = len(arg2)
+//@   at call SetInputUndefinedVariables: assert {the.key.covers.the.variables.removed.from.the.request} g_keyed ==> (arr(arg1) == g_keyArr && len(arg1) == g_keyLen)
+//@   modifies *, count(*)
+//@   safety none
